@@ -233,6 +233,38 @@ def gen_index(rng, shape, adv="maybe", malformed=False):
     return ix
 
 
+def gen_index_mask_before(rng, bs, n, sd):
+    """targeted: a mask (rank 1 or 2) lying entirely BEFORE the stack dim (num_squash != 0 in
+    `_split_index`), optional Nones around it, then an item for the following dims"""
+    full = list(bs)
+    full.insert(sd, n)
+    k = rng.randint(1, min(2, sd))
+    start = rng.randint(0, sd - k)
+    ix = []
+    for d in full[:start]:
+        if rng.random() < 0.2:
+            ix.append(("none",))
+        ix.append(gen_item_for_dim(rng, d))
+    if rng.random() < 0.3:
+        ix.append(("none",))
+    mshape = full[start:start + k]
+    cnt = 1
+    for d in mshape:
+        cnt *= d
+    ix.append(("mask", list(mshape), [rng.random() < 0.6 for _ in range(cnt)]))
+    if rng.random() < 0.2:
+        ix.append(("none",))
+    r = rng.random()
+    if r < 0.35:
+        pass
+    elif r < 0.5:
+        ix.append(("ell",))
+    else:
+        for d in full[start + k:rng.randint(start + k, len(full))]:
+            ix.append(gen_item_for_dim(rng, d))
+    return ix
+
+
 def expand_ell(ix, rank):
     """the index with Ellipsis replaced by the full slices it stands for (as convert_ellipsis_to_idx does)"""
     if not any(i[0] == "ell" for i in ix):
